@@ -10,7 +10,8 @@ enum Op {
 }
 
 /// (text of the rule, name, operator)
-fn rule_text(name: &str, op: Op, group: bool, variant: usize) -> String {
+fn rule_text(name: &str, op: Op, shape: u8, variant: usize) -> String {
+  let group = shape == 1;
   let ops = match op {
     Op::Def => "=",
     Op::TAlt => "/=",
@@ -18,6 +19,9 @@ fn rule_text(name: &str, op: Op, group: bool, variant: usize) -> String {
   };
   if group {
     format!("{} {} (k{}: int)\n", name, ops, variant)
+  } else if shape == 2 && !name.starts_with('$') {
+    // generic rule: the name is still `name`
+    format!("{}<t, u> {} [t, u, {}]\n", name, ops, ["int", "tstr", "bool", "nil"][variant % 4])
   } else {
     format!("{} {} {}\n", name, ops, ["int", "tstr", "bool", "nil"][variant % 4])
   }
@@ -34,7 +38,7 @@ fn first_duplicate(rules: &[(String, Op)]) -> Option<usize> {
   None
 }
 
-fn check_dups(rules: &[(usize, Op, bool)]) -> Option<(String, String)> {
+fn check_dups(rules: &[(usize, Op, u8)]) -> Option<(String, String)> {
   // a type socket is `$s`, a group socket `$$s` (two different names)
   let name_of = |n: usize, group: bool| -> String {
     match n {
@@ -43,7 +47,7 @@ fn check_dups(rules: &[(usize, Op, bool)]) -> Option<(String, String)> {
       _ => if group { "$$s".to_string() } else { "$s".to_string() },
     }
   };
-  let names: Vec<String> = rules.iter().map(|(n, _, g)| name_of(*n, *g)).collect();
+  let names: Vec<String> = rules.iter().map(|(n, _, g)| name_of(*n, *g == 1)).collect();
   let mut doc = String::new();
   let mut starts = vec![];
   for (i, (_n, op, group)) in rules.iter().enumerate() {
@@ -128,11 +132,141 @@ fn check_refs() -> Option<(String, String)> {
   None
 }
 
+/// Systematic reference positions (C12, second sentence).  `X` is replaced by a name; `needs` says what kind of
+/// rule would define it ('t' type, 'g' group); `is_ref` is false for positions where the name is NOT a reference
+/// (bareword member keys), which must never be reported.
+const POSITIONS: &[(&str, char, bool)] = &[
+  ("a = X\n", 't', true),
+  ("a = int / X\n", 't', true),
+  ("a = X / int\n", 't', true),
+  ("a = [* X]\n", 't', true),
+  ("a = [ int, X ]\n", 't', true),
+  ("a = [ 2*3 X ]\n", 't', true),
+  ("a = [ ? X, int ]\n", 't', true),
+  ("a = { k: X }\n", 't', true),
+  ("a = { ? k: X }\n", 't', true),
+  ("a = { X => int }\n", 't', true),
+  ("a = { * X => int }\n", 't', true),
+  ("a = { 1 => X }\n", 't', true),
+  ("a = { \"s\" => X }\n", 't', true),
+  ("a = { tstr ^ => X }\n", 't', true),
+  ("a = { X: int }\n", 't', false),
+  ("a = [ X: int ]\n", 't', false),
+  ("a = { X }\n", 'g', true),
+  ("a = [ X ]\n", 'g', true),
+  ("a = [ * X ]\n", 'g', true),
+  ("a = { k: int // X }\n", 'g', true),
+  ("a = { (k: X) }\n", 't', true),
+  ("a = { k: int // j: X }\n", 't', true),
+  ("a = ( X )\n", 't', true),
+  ("a = ~X\n", 't', true),
+  ("a = &X\n", 'g', true),
+  ("a = &( k: X )\n", 't', true),
+  ("a = #6.1(X)\n", 't', true),
+  ("a = int .lt X\n", 't', true),
+  ("a = tstr .size X\n", 't', true),
+  ("a = X .size 3\n", 't', true),
+  ("a = X..5\n", 't', true),
+  ("a = 0..X\n", 't', true),
+  ("a = c<X>\nc<t> = [t]\n", 't', true),
+  ("a = c<int, X>\nc<t, u> = [t, u]\n", 't', true),
+  ("a<t> = [t, X]\nz = a<int>\n", 't', true),
+  ("a = int\ng = ( k: X )\n", 't', true),
+  ("a = int\ng = ( X, int )\n", 'g', true),
+  ("a = int\na /= X\n", 't', true),
+  ("a = int\ng = ( k: int )\ng //= ( j: X )\n", 't', true),
+  ("a = { k: [ { j: [ X ] } ] }\n", 'g', true),
+  ("a = [ [ [ X ] ], int ]\n", 'g', true),
+  ("a = { k: { j: { i: X } } }\n", 't', true),
+];
+
+fn check_positions() -> (u64, Option<(String, String)>) {
+  let mut tried = 0u64;
+  let undefined = ["b", "b-c", "b.c", "_b", "b1", "B", "uint8", "tstrx", "t"];
+  let prelude = ["uint", "tstr", "any", "bytes", "time", "float16-32", "eb64url", "mime-message", "nil", "undefined", "cbor-any", "number"];
+  let check = |doc: &str, want_undef: Option<&str>| -> Option<(String, String)> {
+    let d = doc.to_string();
+    if catch(move || cddl::pest_bridge::cddl_from_pest_str(&d).is_ok()) != Ok(true) {
+      return Some((doc.to_string(), "the plain parser rejects (or panics on) a syntactically valid document".into()));
+    }
+    let d = doc.to_string();
+    let checked = match catch(move || cddl::ast::CDDL::from_slice(d.as_bytes()).map(|_| ())) {
+      Ok(r) => r,
+      Err(p) => return Some((doc.to_string(), format!("CDDL::from_slice panicked: {}", p))),
+    };
+    match (want_undef, checked) {
+      (None, Ok(_)) => None,
+      (None, Err(e)) => Some((doc.to_string(), format!("every referenced name is defined, but CDDL::from_slice rejects: {}", e.lines().next().unwrap_or("")))),
+      (Some(u), Ok(_)) => Some((doc.to_string(), format!("`{}` is referenced but never defined, and CDDL::from_slice accepts", u))),
+      (Some(u), Err(e)) => {
+        if e.contains(u) {
+          None
+        } else {
+          Some((doc.to_string(), format!("undefined `{}` reported as: {}", u, e.lines().next().unwrap_or(""))))
+        }
+      }
+    }
+  };
+  for (tpl, needs, is_ref) in POSITIONS {
+    let generic_t = tpl.starts_with("a<t>");
+    for u in undefined {
+      // (1) undefined everywhere (the generic parameter `t` counts as defined inside `a<t>`)
+      let doc = tpl.replace('X', u);
+      let want = if *is_ref && !(generic_t && u == "t") { Some(u) } else { None };
+      tried += 1;
+      if let Some(r) = check(&doc, want) {
+        return (tried, Some(r));
+      }
+      // (2) defined by a rule of the needed kind, far below / right above
+      let def = if *needs == 'g' { format!("{} = ( q: int )\n", u) } else { format!("{} = int\n", u) };
+      if !(generic_t && u == "t") {
+        for doc in [format!("{}y1 = int\ny2 = tstr\n; comment\n\n{}", tpl.replace('X', u), def), format!("a0 = int\n{}{}", def, tpl.replace('X', u))] {
+          tried += 1;
+          if let Some(r) = check(&doc, None) {
+            return (tried, Some(r));
+          }
+        }
+      }
+    }
+    // (3) prelude names and sockets are never undefined (type positions only for prelude names)
+    if *needs == 't' {
+      for p in prelude {
+        tried += 1;
+        if let Some(r) = check(&tpl.replace('X', p), None) {
+          return (tried, Some(r));
+        }
+      }
+    }
+    let sock = if *needs == 'g' { "$$sock" } else { "$sock" };
+    if *is_ref {
+      tried += 1;
+      if let Some(r) = check(&tpl.replace('X', sock), None) {
+        return (tried, Some(r));
+      }
+    }
+    // (4) a generic parameter of ANOTHER rule is not in scope
+    if *is_ref && !generic_t {
+      let doc = format!("{}w<p> = [p]\nv = w<int>\n", tpl.replace('X', "p"));
+      tried += 1;
+      if let Some(r) = check(&doc, Some("p")) {
+        return (tried, Some(r));
+      }
+    }
+  }
+  (tried, None)
+}
+
 pub fn find(args: &[String]) -> i32 {
   let maxr: usize = args.first().and_then(|s| s.parse().ok()).unwrap_or(3);
   let mut tried = 0u64;
-  // every document of 1..=maxr rules over 3 names x {type =, type /=, group =, group //=}
-  let kinds = [(Op::Def, false), (Op::TAlt, false), (Op::Def, true), (Op::GAlt, true)];
+  let (n, r) = check_positions();
+  tried += n;
+  if let Some((doc, why)) = r {
+    println!("{{\"found\":true,\"tried\":{},\"witness\":{{\"kind\":\"refpos\",\"doc\":{}}},\"real\":{}}}", tried, jstr(&doc), jstr(&why));
+    return 1;
+  }
+  // every document of 1..=maxr rules over 3 names x {type =, type /=, group =, group //=, generic type =, generic type /=}
+  let kinds = [(Op::Def, 0u8), (Op::TAlt, 0), (Op::Def, 1), (Op::GAlt, 1), (Op::Def, 2), (Op::TAlt, 2)];
   for n in 1..=maxr {
     let total = (3 * kinds.len()).pow(n as u32);
     for x in 0..total {
